@@ -359,7 +359,7 @@ func mkNumMap[K any, V any](m numMap[K, V], kc keyConv[K], vc *vcodec[V], x numE
 }
 
 var numOps = []wop{{"put", 10}, {"putFirst", 5}, {"putLast", 5}, {"add", 3}, {"addFirst", 3}, {"addLast", 3}, {"get", 3}, {"remove", 9},
-	{"removeFirst", 3}, {"removeLast", 3}, {"containsKey", 2}, {"containsValue", 2}, {"clear", 1}, {"sortAsc", 2}, {"sortDesc", 2},
+	{"removeFirst", 3}, {"removeLast", 3}, {"containsKey", 2}, {"containsValue", 1}, {"containsValueOf", 2}, {"clear", 1}, {"sortAsc", 2}, {"sortDesc", 2},
 	{"setMax", 3}, {"setNone", 1}, {"toString", 1}, {"fill", 2}}
 
 const numCovered = "Size IsEmpty IsFull ContainsKey ContainsValue Get GetFirstKey GetLastKey GetFirstValue GetLastValue Put PutLast PutFirst " +
@@ -617,7 +617,7 @@ func registerAll() {
 		s.keyStr, s.cmp, s.negKeys, s.extKeys = str32, cmpOrdered(a32.alpha), neg32, ext32
 		s.hash = func(k int) uint64 { return uint64(a32.alpha[k] & math.MaxInt32) }
 		s.fmtEntry = func(k int, c int64) string { return fmt.Sprintf("%d=%v", a32.alpha[k], ifaceVal(c)) }
-		s.ops = withOps(ifaceOps, wop{"getLRU", 4}, wop{"containsValue", 2}, wop{"toFormatString", 1}, wop{"keySet", 1}, wop{"toKeySet", 1}, wop{"valueIterator", 1})
+		s.ops = withOps(ifaceOps, wop{"getLRU", 4}, wop{"containsValue", 1}, wop{"containsValueOf", 2}, wop{"toFormatString", 1}, wop{"keySet", 1}, wop{"toKeySet", 1}, wop{"valueIterator", 1})
 		s.covered = append(s.covered, words("GetLRU ContainsValue ToFormatString GetKeySet ToKeySet ValueIterator")...)
 		s.methods = methodsOf(&hmap.IntKeyLinkedMap{})
 		s.mk = func(c *Case) *inst {
